@@ -51,7 +51,21 @@ def core_pool(tier):
     for n in named:
         p.append((n, None))
     p += [("DW_TAG_array_type value", ("int", 1, "arith")), ("DW_AT_sibling hex", ("int", 1, "arith"))]
-    p += [("0 0 aset", None), ("0 1 aset", None), ("1 2 aset", None), ("0 2 aset", None), ("0 1 aset 2 3 aset add", None), ("1 0 aset", None)]
+    p += [("0 0 aset", None), ("1 0 aset", None)]
+    # every address set over a universe of four addresses, written as its runs (nested, overlapping, disjoint, shared-start
+    # and shared-end pairs of ranges all occur)
+    for bits in range(1, 16):
+        runs, a = [], 0
+        while a < 4:
+            if bits >> a & 1:
+                b = a
+                while b < 4 and bits >> b & 1:
+                    b += 1
+                runs.append((a, b))
+                a = b
+            else:
+                a += 1
+        p.append((" ".join("%d %d aset" % r for r in runs) + " add" * (len(runs) - 1), None))
     if tier == "thorough":
         have = {t for t, _ in p}
 
